@@ -160,6 +160,18 @@ def gen_message(rng, mutate=None):
             method + b" " + target + b" http/1.1", method + b"\t" + target + version, b"GET", b"GET /a b HTTP/1.1",
             method + b" " + target + b" HTTP/1.1\n", b"\x0b" + first, method + b" " + b"http://[" + version,
             method + b" " + b"/\x00" + version, method + b" " + b"/\t" + version])
+    elif mutate == "bad-line-obs":
+        # a malformed header line (bare CR/LF inside, or a first line starting with
+        # SP/HTAB) that ALSO carries bytes which are not valid UTF-8 / not ASCII
+        junk = rng.choice([b"\xe9", b"\xff\xfe", b"caf\xe9", b"\x80", b"\xc3(", b"\xa0x"])
+        kind = rng.choice(["lf", "cr", "lead"])
+        if kind == "lead":
+            headers.insert(0, (rng.choice([b" ", b"\t"]) + b"X-" + junk, b"1"))
+            headers_shuffled = False
+        elif kind == "lf":
+            headers.append((b"X-Bad", b"a" + junk + b"\nb"))
+        else:
+            headers.append((b"X-Bad", junk + b"\rb" + junk))
     elif mutate == "lead-crlf":
         first = rng.choice([b"\r\n", b"\r\n\r\n", b"\n", b" \r\n", b"\r\n \t"]) + first
     head = first + b"\r\n"
@@ -177,7 +189,7 @@ def gen_message(rng, mutate=None):
 
 
 MUTATIONS = ["cl-value", "cl-dup", "te-dup", "te", "chunk-size", "chunk-term", "chunk-last", "chunk-trailer",
-             "bare-lf", "ws-colon", "bad-name", "first-line", "lead-crlf"]
+             "bare-lf", "ws-colon", "bad-name", "first-line", "lead-crlf", "bad-line-obs"]
 
 
 def gen_stream(rng, stream="grammar"):
